@@ -29,6 +29,10 @@ pub static LOG_TIME: std::sync::atomic::AtomicBool = std::sync::atomic::AtomicBo
 ///  "by_conn": {"2": {"defaults": .., "readonly": ..}}   overrides for one connection id}.
 /// A backend that has an entry refuses `SET <read-only parameter>` with 55P02 like PostgreSQL.
 pub static C12_PARAMS: std::sync::Mutex<BTreeMap<String, Value>> = std::sync::Mutex::new(BTreeMap::new());
+/// C12 (additive): `COPY .. FROM STDIN /*mock: copy_continue*/; <more statements>` in one simple Query: like PostgreSQL
+/// the statements behind the COPY run after CopyDone (before the single ReadyForQuery); CopyFail drops them.
+/// Without the directive the rest of the query string is dropped as before.  Key: (backend name, connection id).
+static C12_PENDING: std::sync::Mutex<BTreeMap<(String, u64), Vec<String>>> = std::sync::Mutex::new(BTreeMap::new());
 
 fn c12_params(be: &str, conn: u64) -> Option<(BTreeMap<String, String>, BTreeMap<String, String>)> {
     let g = C12_PARAMS.lock().ok()?;
@@ -86,7 +90,7 @@ pub struct Backend {
     pub hang_match: Mutex<Option<String>>, // C07: a simple query containing this text is swallowed and never answered
     pub fault_on: Mutex<Option<(String, String)>>, // C07: (message tags, kind): a session that receives a message with one of these tags
                                                    // hangs (kind "hang": nothing more is answered), dies ("close": closed without a reply), or answers that
-                                                   // message with half of the bytes and then closes ("mid") / stops ("mid_hang")
+                                                   // message with half of the bytes and then closes ("mid") / stops ("mid_hang"), or rejects it with an ErrorResponse ("error")
     pub reset_epoch: AtomicU64, // C02/C04: bumping it makes every open session close with a TCP RST (SO_LINGER 0) at its next idle poll; the listener stays up
     pub slow_exact: Mutex<Option<(String, u64, u64)>>, // C01/C02: a simple query whose text IS this string is answered after ms, for the next `count` occurrences (the health check `;` carries no directive)
     pub busy: Mutex<BTreeMap<u64, String>>, // C10: session id -> the statement it is executing right now (reported in every `cancel` event)
@@ -1152,6 +1156,26 @@ async fn run_session(c: &mut Conn) -> String {
                     }
                 }
             }
+            if kind == "error" {
+                // the server is fine and REJECTS the message: ErrorResponse, the rest of the batch is skipped up to the Sync
+                let mut detail = json!({"raw": hex(&raw), "c07_fault": kind});
+                if code == b'P' {
+                    let mut bb = &body[..];
+                    let name = read_cstr(&mut bb);
+                    detail["name"] = json!(name);
+                    detail["sql"] = json!(read_cstr(&mut bb));
+                }
+                c.log_msg(code, detail);
+                if !c.s.skip_until_sync {
+                    c.err("42601", "mock: statement rejected (c07 fault)");
+                    c.s.skip_until_sync = true;
+                }
+                c.publish_state();
+                if !c.flush().await {
+                    return "closed mid reply".into();
+                }
+                continue;
+            }
             c.c07_mid = if kind == "mid_hang" { 2 } else { 1 };
         }
         let flow = match code {
@@ -1182,11 +1206,16 @@ async fn run_session(c: &mut Conn) -> String {
                     if stmts.is_empty() {
                         put_msg(&mut c.out, b'I', &[]);
                     }
-                    for st in stmts {
+                    for (c12_i, st) in stmts.iter().enumerate() {
                         let before_err = c.s.txn;
                         flow = c.exec(&st, true).await;
                         let errored = c.out.len() > 0 && last_is_error(&c.out);
                         if !matches!(flow, Flow::Continue) || c.s.copy_in {
+                            if c.s.copy_in && directives(st).contains_key("copy_continue") {
+                                if let Ok(mut g) = C12_PENDING.lock() {
+                                    g.insert((c.be.name.clone(), c.s.id), stmts[c12_i + 1..].to_vec());
+                                }
+                            }
                             break;
                         }
                         let _ = before_err;
@@ -1226,12 +1255,30 @@ async fn run_session(c: &mut Conn) -> String {
                     }
                 } else if c.s.copy_in {
                     c.s.copy_in = false;
+                    let c12_rest = C12_PENDING.lock().ok().and_then(|mut g| g.remove(&(c.be.name.clone(), c.s.id))).unwrap_or_default();
                     if code == b'c' {
                         c.complete("COPY 1");
+                        // C12 (additive): the statements that followed the COPY in the same query string
+                        for (i, st) in c12_rest.iter().enumerate() {
+                            let _ = c.exec(st, true).await;
+                            if c.s.copy_in {
+                                if directives(st).contains_key("copy_continue") {
+                                    if let Ok(mut g) = C12_PENDING.lock() {
+                                        g.insert((c.be.name.clone(), c.s.id), c12_rest[i + 1..].to_vec());
+                                    }
+                                }
+                                break;
+                            }
+                            if c.out.len() > 0 && last_is_error(&c.out) {
+                                break;
+                            }
+                        }
                     } else {
                         c.err("57014", "COPY from stdin failed");
                     }
-                    c.rfq();
+                    if !c.s.copy_in {
+                        c.rfq();
+                    }
                 }
                 Flow::Continue
             }
